@@ -75,6 +75,7 @@ fn main() {
                 "select" => engines::select::replay(&v),
                 "fd" => engines::fd::replay(&v),
                 "membership" => engines::membership::replay(&v),
+                "server" => engines::server::replay(&v),
                 e => Err(format!("unknown engine {e}")),
             };
             match r {
@@ -132,6 +133,12 @@ fn run_check(prop: &str, tier: Tier) -> i32 {
         "C12" | "C13" => {
             let p: &'static str = if prop == "C12" { "C12" } else { "C13" };
             check.parts.extend(engines::membership::run(p, tier, started));
+        }
+        "C16" => {
+            check.parts.extend(engines::isolation::run(tier));
+        }
+        "C19" => {
+            check.parts.extend(engines::server::run(tier, started));
         }
         "C09" => {
             check.parts.extend(engines::hostile::run(tier, started));
